@@ -65,7 +65,7 @@ func c06Faults() []c06Fault {
 			return model.Prop(model.Idx(id("arr2"), model.Bin("%", model.Grp(model.Bin("*", n(3), n(7))), model.Grp(model.Bin("-", n(9), n(7))))), "zz")
 		}),
 	}
-	for _, txt := range []string{"%d", "%s", "100%", "%!v(", "%%", "%[1]d", "a\\b", "[line 99]", "%v %v %v"} {
+	for _, txt := range append([]string{"%d", "%s", "100%", "%!v(", "%%", "%[1]d", "a\\b", "[line 99]", "%v %v %v"}, c06OtherTexts...) {
 		txt := txt
 		fs = append(fs,
 			e("minus-text:"+txt, func() *model.N { return model.Un("-", model.Str(txt)) }),
@@ -397,6 +397,58 @@ func C06(c *fw.Ctx) {
 			}
 		}
 	}
+	// the faulty value was used legally before: a text of a pool (ASCII, Bangla, accented, digits of both
+	// scripts with a unit, blank-padded) takes part in every operation that accepts it (joined to a number on
+	// either side, compared, shown, stored, passed) and is then the operand of each operation that must
+	// refuse it; the legal uses print what the model says and the refusal is the first diagnostic
+	{
+		n, id := model.Num, model.Id
+		legal := []struct {
+			name string
+			mk   func(t *model.N) *model.N
+		}{
+			{"number-plus-text", func(t *model.N) *model.N { return model.Bin("+", n(3), t) }},
+			{"text-plus-number", func(t *model.N) *model.N { return model.Bin("+", t, n(3)) }},
+			{"equals-number", func(t *model.N) *model.N { return model.Bin("==", t, n(0)) }},
+			{"in-array", func(t *model.N) *model.N { return model.Arr(t, n(1)) }},
+			{"through-function", func(t *model.N) *model.N { return model.CallN("f1", t) }},
+			{"truthiness", func(t *model.N) *model.N { return model.Log("&&", t, n(1)) }},
+		}
+		refused := []struct {
+			name string
+			mk   func(t *model.N) *model.N
+		}{
+			{"times-two", func(t *model.N) *model.N { return model.Bin("*", t, n(2)) }},
+			{"minus", func(t *model.N) *model.N { return model.Un("-", t) }},
+			{"less-than", func(t *model.N) *model.N { return model.Bin("<", n(1), t) }},
+			{"divisor", func(t *model.N) *model.N { return model.Bin("/", n(10), t) }},
+			{"index", func(t *model.N) *model.N { return model.Idx(id("arr"), t) }},
+			{"sqrt", func(t *model.N) *model.N { return model.CallN(model.BiSqrt, t) }},
+			{"shift", func(t *model.N) *model.N { return model.Bin("<<", t, n(1)) }},
+		}
+		for ti, txt := range append([]string{"s", "abc"}, c06OtherTexts...) {
+			for _, lg := range legal {
+				for _, rf := range refused {
+					for form := 0; form < 2; form++ {
+						if !c.Mine() {
+							continue
+						}
+						var t func() *model.N
+						pre := c06Prelude()
+						if form == 0 {
+							t = func() *model.N { return model.Str(txt) }
+						} else {
+							pre = append(pre, model.Var("tv", model.Str(txt)))
+							t = func() *model.N { return id("tv") }
+						}
+						prog := append(pre, T("begin"), model.Print(lg.mk(t())), T("between"), model.ExprS(rf.mk(t())), T("never"))
+						judge(c, prog, judgeOpts{SigPrefix: fmt.Sprintf("legal-use-before-refusal|%s|%s|text%d", lg.name, rf.name, ti), NoKind: true})
+						c.R.States++
+					}
+				}
+			}
+		}
+	}
 	var path []string
 	var rec func()
 	rec = func() {
@@ -487,3 +539,6 @@ func C06(c *fw.Ctx) {
 	c.R.Traces = c.R.States
 	c.Sample(map[string]string{"fault": "divide-by-zero", "position": "for-increment", "enclosure": "while > function"})
 }
+
+// c06OtherTexts: texts that are not numbers, outside ASCII or beside digits.
+var c06OtherTexts = []string{" \u099f\u09be\u0995\u09be", "\u00e9", "\u09f3", "\u09e7\u09e8 \u099f\u09be", "12 kg", " 7 ", "\u09e6x", "\u0995"}
